@@ -313,6 +313,11 @@ func c14(r *core.Report) {
 	r.Rule("C14-BORROW-RECV", "no alias of a received message's payload is written or outlives the function it was lent to", 9)
 	ruleBorrowRecv(r, h, newBorrowEngine(p, h), "C14-BORROW-RECV")
 
+	// ---- C14-BORROW-SEND (shared with C01): what a callback receives is its own only if the sending side did not
+	// pass the asker's/teller's buffer on by reference
+	r.Rule("C14-BORROW-SEND", "no alias of a Tell/Ask payload element is written or outlives the call", 24)
+	ruleBorrowSend(r, newBorrowEngine(p, h), "C14-BORROW-SEND")
+
 	// ---- C14-COLLECTOR-EXCLUSIVE: mbapp hands the collector's own reassembly buffer to the callback;
 	// handlePart runs addPart / isComplete / withBuffer as three separate critical sections and drops the
 	// collector only afterwards, so a second worker that sees the same collector complete must be kept
